@@ -54,6 +54,58 @@ def parse_model_sem(line):
     return ('OK', (tuple(out), int(n)))
 
 
+def raw_fields_obs(fl):
+    from core import raw
+    return tuple((fid_of(i), raw(v)) for i, v in fl)
+
+
+def parse_model_unparse_raw(line):
+    if line.startswith('OK'):
+        out = []
+        for tok in line[3:].split():
+            a, r_ = tok.split('/', 1)
+            out.append(((a[0], int(a[1:])), r_))
+        return ('OK', tuple(out))
+    if line.startswith('EXC '):
+        return ('EXC', line[4:])
+    return ('BAD', line)
+
+
+def parse_model_sem_raw(line):
+    if line.startswith('OK'):
+        fs, _, n = line[3:].rpartition('|')
+        out = []
+        for tok in fs.split():
+            a, pos, r_ = tok.split('/', 2)
+            out.append(((a[0], int(a[1:])), int(pos), r_))
+        return ('OK', (tuple(out), int(n)))
+    if line.startswith('EXC '):
+        return ('EXC', line[4:])
+    return ('BAD', line)
+
+
+def bytes_unparse_case(b, sem, fl, klass):
+    """the same un-parse on the byte-level model (CoapSemanticBytes.bcoap_unparse): every produced field Buffer raw-exact"""
+    from core import raw
+    toks = ['Y', 'bunparse', str(len(fl))]
+    for i_, v in fl:
+        fi = fid_of(i_)
+        toks += [fi[0], str(fi[1]), raw(v)]
+    o = with_timeout(lambda: raw_fields_obs(sem.unparse(fl)))
+    b.add('bytes:' + klass, ' '.join(toks), o, parse_model_unparse_raw, None, dict(layer='coap-bytes', op='unparse'), key=' '.join(toks))
+
+
+def bytes_parsesem_case(b, sem, pkt, klass):
+    from core import raw
+    buf = Buffer(pkt, len(pkt) * 8)
+    line = 'Y bparsesem ' + raw(buf)
+
+    def f():
+        hd = sem.parse(buf)
+        return (tuple((fid_of(x.id), x.position, raw(x.value)) for x in hd.fields), hd.length)
+    b.add('bytes:' + klass, line, with_timeout(f), parse_model_sem_raw, None, dict(layer='coap-bytes', op='parsesem'), key=line)
+
+
 def run(rep, tier, seed):
     rnd = rng_for(seed, 'C19')
     b = Batch(rep)
@@ -86,6 +138,8 @@ def run(rep, tier, seed):
         if o1[0] != 'OK':
             fails.append('semantic parse of a well-formed message raised %s (options %s)' % (o1[1], opts))
         b.add('semantic-parse', 'S parsesem %s' % tb(bits), o1, parse_model_sem, fails, dict(layer='coap', op='parsesem', bits=bits, options=opts), key=('sem', bits))
+        if len(bits) <= 12000:
+            bytes_parsesem_case(b, sem, pkt, 'semantic-parse')
         if o1[0] != 'OK':
             continue
         # the same long-lived parser object has just been asked to un-parse something it rejects (or not): no state may survive that
@@ -106,6 +160,8 @@ def run(rep, tier, seed):
             fi = fid_of(i_)
             toks += [fi[0], str(fi[1]), tb(bits_of(v))]
         b.add('unparse', ' '.join(toks), o2, parse_model_unparse, fails, dict(layer='coap', op='unparse', bits=bits, options=opts), key=('un', bits))
+        if len(bits) <= 12000:
+            bytes_unparse_case(b, sem, semf, 'unparse')
         for d, l in opts:
             rep.hist['delta:%s' % ('0-12' if d < 13 else '13-268' if d < 269 else '269+')] = rep.hist.get('delta:%s' % ('0-12' if d < 13 else '13-268' if d < 269 else '269+'), 0) + 1
             rep.hist['length:%s' % ('0' if l == 0 else '1-12' if l < 13 else '13-268' if l < 269 else '269+')] = rep.hist.get('length:%s' % ('0' if l == 0 else '1-12' if l < 13 else '13-268' if l < 269 else '269+'), 0) + 1
@@ -121,6 +177,17 @@ def run(rep, tier, seed):
             fi = fid_of(i_)
             toks += [fi[0], str(fi[1]), tb(bits_of(v))]
         b.add('unparse-any', ' '.join(toks), o, parse_model_unparse, None, dict(layer='coap', op='unparse'), key=' '.join(toks))
+        bytes_unparse_case(b, sem, fl, 'unparse-any')
+    # an unrecognised field id after an option: the code builds the option fields in a finally clause, so a value of 65805 bytes or
+    # more turns the UnparserError into an OverflowError (both models follow the code)
+    for nbytes in (65804, 65805):
+        fl = [('CoAP:Option Uri-Path', mk('00000001')), ('bogus', Buffer(bytes(nbytes), nbytes * 8))]
+        o = with_timeout(lambda: fields_obs(sem.unparse(fl)))
+        toks = ['S', 'unparse', str(len(fl))]
+        for i_, v in fl:
+            fi = fid_of(i_)
+            toks += [fi[0], str(fi[1]), tb(bits_of(v))]
+        b.add('unparse-any', ' '.join(toks), o, parse_model_unparse, None, dict(layer='coap', op='unparse', note='finally clause, %d bytes' % nbytes), key=('fin', nbytes))
     # malformed messages through the semantic parser (correspondence + only ParserError)
     for _ in range(150 if tier == 'quick' else 2000):
         pkt, st = P.coap(rnd)
